@@ -5,6 +5,7 @@
    spelling, literals mapped to null/true/false. *)
 From JsonSyntax Require Import Base.Prelude Base.Value Base.Unicode Base.Source Model.Parser Model.EntryPoints
   Model.Object Spec.Grammar Spec.Multimap Proofs.ParserSpec Proofs.ParserCorollaries.
+From JsonSyntax Require Import Base.ConstSyntax Generated.Consts Proofs.ConstsTie.
 
 (* whatever the parser returns is what the grammar says the text denotes (any options) *)
 Theorem C02_sound : forall o cs v m, Forall (fun c => c <= 0x10FFFF) cs ->
@@ -72,6 +73,12 @@ Example C02_example :
   = Ok (VObj [([0x6B], VArr [VNum (s2l "1.50e+2"); VStr [0x1F600; 0x0A]]); ([0x6B], VNull)], m).
 Proof. vm_compute. eexists; reflexivity. Qed.
 
+(* static tie (DESIGN.md section 4, "Translator tie for constant tables"): the two-character escapes that the arms of
+   `match parser.next_char()?` after a backslash in SmallString::parse_in denote -- evaluated from the source on every
+   run -- are the characters the parser model returns for "\X", X ranging over char_domain *)
+Theorem C02_escapes_from_source : src_escape_table = ct_escape_table.
+Proof. exact ConstsTie.parser_escapes_from_source. Qed.
+
 Print Assumptions C02_sound.
 Print Assumptions C02_denotation_functional.
 Print Assumptions C02_parse_str_spec.
@@ -83,3 +90,4 @@ Print Assumptions C02_number_verbatim.
 Print Assumptions C02_literals.
 Print Assumptions C02_lookup.
 Print Assumptions C02_example.
+Print Assumptions C02_escapes_from_source.
